@@ -18,6 +18,8 @@ import Verif.Gen.JsMimetypes
 import Verif.Gen.ShortenColorHex
 import Verif.Gen.ShortenColorName
 import Verif.Gen.OptionalZeroDimension
+import Verif.Gen.ZeroAngleFuncs
+import Verif.Gen.AngleDimension
 import Verif.Gen.SvgColorAttrs
 import Verif.Gen.HashNames
 import Verif.Gen.Html5Entities
@@ -302,13 +304,34 @@ theorem zero_units_ok : ∀ u ∈ OptionalZeroDimension.table, isLengthOrAngleUn
   have h : OptionalZeroDimension.table.all isLengthOrAngleUnit = true := by decide +kernel
   exact all_of h
 
+/-- **every function of `css.zeroAngleFuncs`** (a zero angle loses its unit inside it) admits `<zero>` for its
+    `<angle>` arguments -/
+theorem zero_angle_funcs_ok : ∀ f ∈ ZeroAngleFuncs.table, zeroAngleFunctions.contains f = true := by
+  have h : ZeroAngleFuncs.table.all (fun f => zeroAngleFunctions.contains f) = true := by decide +kernel
+  exact all_of h
+
+/-- **every unit of `css.angleDimension`** is an angle unit, and **every angle unit of `css.optionalZeroDimension` is in
+    `css.angleDimension`** — so no zero angle loses its unit outside `zeroAngleFuncs` (the code drops the unit when
+    `fun == 0 && !angleDimension[unit] || fun == zeroAngleFunc`) -/
+theorem angle_dimension_ok :
+    (∀ u ∈ AngleDimension.table, angleUnits.contains u = true) ∧
+    (∀ u ∈ OptionalZeroDimension.table, angleUnits.contains u = true → AngleDimension.table.contains u = true) := by
+  have h1 : AngleDimension.table.all (fun u => angleUnits.contains u) = true := by decide +kernel
+  have h2 : OptionalZeroDimension.table.all (fun u => !angleUnits.contains u || AngleDimension.table.contains u) = true := by
+    decide +kernel
+  refine ⟨all_of h1, fun u hu ha => ?_⟩
+  have h := all_of h2 u hu
+  simp only [ha, Bool.not_true, Bool.false_or] at h
+  exact h
+
 /-- **every attribute of `svg.colorAttrMap`** takes a `<color>`/`<paint>` value -/
 theorem svg_color_attrs_ok : ∀ a ∈ SvgColorAttrs.table, svgColorAttrs.contains a = true := by
   have h : SvgColorAttrs.table.all (fun a => svgColorAttrs.contains a) = true := by decide +kernel
   exact all_of h
 
 example : 0 < JsMimetypes.table.length ∧ 0 < OptionalZeroDimension.table.length ∧
-    0 < SvgColorAttrs.table.length := by decide +kernel
+    0 < SvgColorAttrs.table.length ∧ 0 < ZeroAngleFuncs.table.length ∧ 0 < AngleDimension.table.length := by
+  decide +kernel
 
 /-! ## hash name tables -/
 
